@@ -380,6 +380,7 @@ def oracle(spec, obs):
         pos.setdefault(t, i)
     # --- every supplied finite value appears unchanged at its timestamp
     dropped = 0
+    changed = set()
     for t, cells in sup.items():
         i = pos.get(t)
         if i is None:
@@ -390,10 +391,11 @@ def oracle(spec, obs):
                 continue
             col = obs["val"][c]
             if col is None or not same_float(float(col[i]), cells[k]):
-                fails.append(({"broken": "supplied value changed", "column": c,
-                               "kind": "missing" if col is None or math.isnan(col[i]) else "different"},
-                              "%s at %d: supplied %r, frame has %r" % (c, t, cells[k], None if col is None else float(col[i]))))
-                break
+                kind = "missing" if col is None or math.isnan(col[i]) else "different"
+                if (c, kind) not in changed:
+                    changed.add((c, kind))
+                    fails.append(({"broken": "supplied value changed", "column": c, "kind": kind},
+                                  "%s at %d: supplied %r, frame has %r" % (c, t, cells[k], None if col is None else float(col[i]))))
     if dropped:
         off_grid = frac and all((t - ts[0]) % 60 for t in sup if t not in pos) if ts else False
         fails.append(({"broken": "supplied row dropped", "cause": cause if off_grid else "other"},
@@ -465,6 +467,14 @@ def iarr(arr):
     return "[| %s | 0 |]%%uint63" % "; ".join(str(int(v)) for v in arr)
 
 
+def farr_or_empty(arr):
+    """an all-NaN column is written as the empty array (Model/HourlyPrepRun.v: qcol_n)"""
+    arr = list(arr)
+    if all(v is None or v != v for v in arr):
+        return farr([])
+    return farr(arr)
+
+
 def coq_def(name, spec, obs):
     """text of `Definition <name> : acase := ...` and the mode of the comparison"""
     z = spec["zone"]
@@ -477,28 +487,34 @@ def coq_def(name, spec, obs):
         return None, "the last supplied day has no 23:00"
     lo_fwd, hi_back = eo
     n = len(obs["ts"])
-    est, val, flg = [], [], []
+    est, val = [], []
+    packed = np.zeros(n, dtype=np.int64)
     mode = "short" if n <= 72 else "recorded"
-    for c in COLS:
+    for k, c in enumerate(COLS):
         col = obs["val"][c]
         v = col if col is not None else np.full(n, np.nan)
         f = obs["flag"][c] if obs["flag"][c] is not None else np.zeros(n, bool)
-        val.append(farr(v))
-        flg.append(iarr(f))
+        packed += f.astype(np.int64) << k
+        val.append(farr(v) if k == 0 else farr_or_empty(v))
         if n <= 72:
-            est.append(farr([]))
-        elif c in obs["rec"] and obs["rec"][c][1] is not None and len(obs["rec"][c][1]) == n:
+            est.append((iarr([]), farr([])))
+            continue
+        if c in obs["rec"] and obs["rec"][c][1] is not None and len(obs["rec"][c][1]) == n:
             xin, xout = obs["rec"][c]
-            est.append(farr(np.where(np.isnan(xin), xout, np.nan)))
+            prop = np.where(np.isnan(xin), xout, np.nan)
         else:
             # the imputer could not be observed: its proposal is whatever ended up in the frame
             if not (c == "ghi" and not spec["has_ghi"]):
                 mode = "oracle"
-            est.append(farr(v))
-    text = "Definition %s : acase := mkacase %s %d%%uint63 %d%%uint63\n %s\n %s\n %s\n %s\n %s\n %s\n %s\n %s\n %d%%uint63 %d%%uint63\n %s\n %s\n %s\n %s\n %s\n %s.\n" % (
+            prop = v
+        where = np.nonzero(~np.isnan(prop))[0]
+        est.append((iarr(where), farr(prop[where])))
+    text = ("Definition %s : acase := mkacase %s %d%%uint63 %d%%uint63\n %s\n %s\n %s\n %s\n %s\n %s\n %s %s\n %s %s\n %s %s\n"
+            " %d%%uint63 %d%%uint63\n %s\n %s\n %s\n %s.\n") % (
         name, coq_bool(spec["elec"]), lo_fwd, hi_back, iarr(bnds),
-        iarr(stamps), farr([r[1] for r in rows]), farr([r[2] for r in rows]), farr([r[3] for r in rows]),
-        est[0], est[1], est[2], obs["ts"][0] if n else 0, n, val[0], val[1], val[2], flg[0], flg[1], flg[2])
+        iarr(stamps), farr([r[1] for r in rows]), farr_or_empty([r[2] for r in rows]), farr_or_empty([r[3] for r in rows]),
+        coq_bool(n > 72), est[0][0], est[0][1], est[1][0], est[1][1], est[2][0], est[2][1],
+        obs["ts"][0] if n else 0, n, val[0], val[1], val[2], iarr(packed))
     return text, mode
 
 
@@ -593,6 +609,17 @@ def compile_data_files(run, todo, nfiles):
     return (diags if ok else None), names
 
 
+def models_fresh():
+    """Model/HourlyPrepRun.vo is newer than everything it is built from (then the exclusive build lock is not needed a
+    second time: Properties/C17.vo, just rebuilt, already brought Model/HourlyPrep.vo up to date)"""
+    def mt(rel):
+        p = os.path.join(vlib.COQ, rel)
+        return os.path.getmtime(p) if os.path.exists(p) else None
+    vo = mt("Model/HourlyPrepRun.vo")
+    deps = [mt("Model/HourlyPrepRun.v"), mt("Model/HourlyPrep.vo"), mt("Model/HourlyPrep.v"), mt("Model/CasesLib.vo"), mt("Model/CasesLib.v")]
+    return vo is not None and all(d is not None and d <= vo for d in deps)
+
+
 def main():
     run = Run("C17")
     run.batch_no = 0
@@ -623,7 +650,8 @@ def main():
                                 "Coq.Floats.FloatOps.Prim2SF (reads the binary64 literals of the cases files exactly)"]
     run.check_proofs("Properties/C17.v", ["Proofs/HourlyPrepProofs.v"])
     run.log("theorems checked: %s" % run.proof_ok)
-    run.ensure_models(["Model/HourlyPrepRun.v", "Model/CasesLib.v"])
+    if not models_fresh():
+        run.ensure_models(["Model/HourlyPrepRun.v", "Model/CasesLib.v"])
     run.log("models built")
 
     items = []
@@ -636,7 +664,7 @@ def main():
             for c in json.load(open(corpus)):
                 items.append(("spec", c["spec"]))
         nfr = int(os.environ.get("VERIF_N") or run.n(300, 6000))
-        classes = ["short"] * 25 + ["small"] * 45 + ["medium"] * 22 + ["large"] * 6 + ["huge"] * 2
+        classes = ["short"] * 25 + ["small"] * 46 + ["medium"] * 23 + ["large"] * 5 + ["huge"] * 1
         for k in range(nfr):
             sc = classes[k % 100] if run.quick() else run.rng.choice(classes)
             items.append(("gen", (run.rng.getrandbits(48), sc)))
@@ -702,7 +730,8 @@ def process(run, items, nproc):
         return
     for n_, i in enumerate(bad):
         r = todo[i]
-        run.log("model/implementation disagreement: %s -> %s" % (r["summary"], diags.get(r["idx"], "?")[:600]))
+        if n_ < 4:
+            run.log("model/implementation disagreement: %s -> %s" % (r["summary"], diags.get(r["idx"], "?")[:600]))
         if n_ < 6:
             run.corr_failures.append({"stream": "prep", "case": {"spec": regenerate(r)},
                                       "impl": {"rows": r["n_out"], "first": r["lo"], "mode": r["mode"]},
